@@ -233,6 +233,58 @@ def judge(plan, tr_ref: P.Trace, tr_lib: P.Trace):
     return None, probes
 
 
+def _struct_job(job):
+    """One pure structure computation of the library -> comparable value (see checks.threadpure)."""
+    import uuid
+
+    import dpapi_ng._blob as dblob
+    import dpapi_ng._gkdi as dg
+
+    what, k = job
+    r = __import__("random").Random(k)
+    rkid = uuid.UUID(int=r.getrandbits(128))
+    if what == "getkey":
+        sd = dtyp.target_sd(offline.sid_shape(1 + k % 15, k))
+        g = dg.GetKey(sd, rkid if k % 3 else None, r.randrange(-1, 500), r.randrange(-1, 32), r.randrange(-1, 32))
+        raw = bytes(g.pack())
+        return raw, repr(dg.GetKey.unpack(raw))
+    env = {"version": 1, "flags": 2 + k % 2, "l0": r.randrange(300, 500), "l1": r.randrange(32), "l2": r.randrange(32), "root_key_id": rkid,
+           "kdf_alg": "SP800_108_CTR_HMAC", "kdf_params": gkdi.pack_kdf_params(offline.HASHES[k % 4]), "secret_alg": ("DH", "ECDH_P256", "ECDH_P384")[k % 3],
+           "secret_params": b"" if k % 3 else gkdi.pack_dh_params(8, 0xF1F3F5F7F9FBFDFF | (1 << 63), 2 + k % 5), "private_key_length": 256 + k % 3, "public_key_length": 2048,
+           "domain": NAMES[k % len(NAMES)], "forest": NAMES[(k // 3) % len(NAMES)], "l1_key": bytes([k % 256]) * (64 if k % 2 else 0), "l2_key": bytes([(k + 1) % 256]) * (64 if k % 5 else 0)}
+    raw = gkdi.pack_envelope(env)
+    if what == "env":
+        e = dg.GroupKeyEnvelope.unpack(raw)
+        return repr(e), bytes(e.pack())
+    if what == "resp":
+        e = dg.GetKey.unpack_response(rpce.ndr64_getkey_response(raw))
+        return repr(e), bytes(e.pack())
+    if what == "kid":
+        kid = {"version": 1, "flags": 1 + 2 * (k % 2), "l0": env["l0"], "l1": env["l1"], "l2": env["l2"], "root_key_id": rkid, "key_info": bytes(range(k % 70)),
+               "domain": env["domain"], "forest": env["forest"]}
+        o = dblob.KeyIdentifier.unpack(gkdi.pack_key_identifier(kid))
+        return repr(o), bytes(o.pack())
+    if what == "params":
+        kp = dg.KDFParameters.unpack(gkdi.pack_kdf_params(offline.HASHES[k % 4]))
+        fp = dg.FFCDHParameters.unpack(gkdi.pack_dh_params(8 + k % 3, (1 << (8 * (8 + k % 3) - 1)) | (2 * k + 1), 2 + k % 7))
+        dk = dg.FFCDHKey.unpack(gkdi.pack_dh_key(8, (1 << 63) | (2 * k + 1), 2, 5 + k))
+        return repr(kp), bytes(kp.pack()), repr(fp), bytes(fp.pack()), repr(dk), bytes(dk.pack())
+    raise ValueError(what)
+
+
+def run_threads(case) -> dict:
+    """{"kind": "threads", ...}: 2..4 caller threads encode / decode MS-GKDI structures at the same time."""
+    import random
+
+    from checks import threadpure
+
+    r = random.Random(case["seed"])
+    jobs = [[(r.choice(("getkey", "getkey", "env", "resp", "kid", "params")), r.randrange(5000)) for _ in range(r.randint(3, 9))] for _ in range(case["n"])]
+    out = threadpure.run("C11", "structures", case, jobs, _struct_job, case["seed"], case["policy"])
+    out["probes"] = dict(out.get("probes") or {}, thread_structure_cases=1)
+    return out
+
+
 class C11(common.Check):
     id = "C11"
     level = "exploration"
@@ -242,21 +294,29 @@ class C11(common.Check):
             "non-ASCII, non-BMP), small DH groups with odd key lengths and leading-zero public values, P256 / P384, seed and public-key replies. "
             "Judged: independent decode of every GetKey stub == API arguments == LibDC's decode, stub re-encoding; envelope bytes LibDC == "
             "RefDC; library decode of the reply and of nested KDF / FFC-DH parameters / DH / ECDH keys == independent decode and re-encodes "
-            "identically; key identifiers in emitted blobs. Non-trivial = every plan; distinct = distinct plan.")
+            "identically; key identifiers in emitted blobs; 2..4 caller threads of one process encode / decode the structures at the same time "
+            "(pre-empted at PRNG-chosen line events inside dpapi_ng) and every result must equal the one computed alone. Non-trivial = every plan; distinct = distinct plan.")
     components = {"client": "real (GetKey.pack, GetKey.unpack_response, GroupKeyEnvelope.unpack, KeyIdentifier.pack, parameter/key structures)",
                   "LibDC": "real codecs in the server role (GetKey.unpack, VerificationTrailer.unpack, GroupKeyEnvelope.pack)",
                   "RefDC": "model (ref.rpce NDR64, ref.gkdi structures)", "transport / clock / entropy": "simulated"}
     assumptions = ["structure values that no party can send in this protocol (e.g. an envelope with L1 = 2^32-1) are outside the technique and not claimed",
                    "NDR referent ids are free and compared through the decoder"]
     required_fired = tuple("sd_len_mod8_%d" % i for i in (0, 4)) + ("root_key_ptr_null", "root_key_ptr_set", "reply_seed", "reply_public") + \
-        tuple("env_len_mod8_%d" % i for i in range(8)) + ("envelope_boundary_values", "p521_public_key_decoded", "nil_guid_root_key_id")
+        tuple("env_len_mod8_%d" % i for i in range(8)) + ("envelope_boundary_values", "p521_public_key_decoded", "nil_guid_root_key_id", "thread_structure_cases", "thread_overlap")
 
     def cases(self, tier, seed):
         rng = prng.stream(seed, "C11")
         n = 1500 if tier == "quick" else 60000
-        return [gen_plan(rng, i, tier) for i in range(n)]
+        from checks import threadpure
+
+        out = [gen_plan(rng, i, tier) for i in range(n)]
+        for k in range(300 if tier == "quick" else 20000):
+            out.append({"kind": "threads", "seed": rng.getrandbits(30), "n": 2 + k % 3, "policy": threadpure.policy_for(k, seams=False)})
+        return out
 
     def run_case(self, case):
+        if case.get("kind") == "threads":
+            return run_threads(case)
         tr_ref = P.execute_plan(case)
         tr_lib = P.execute_plan(dict(case, dc=dict(case["dc"], lib_codecs=True)))
         viol, probes = judge(case, tr_ref, tr_lib)
@@ -264,6 +324,20 @@ class C11(common.Check):
                 "probes": probes, "vtime_ns": tr_ref.world.stats.get("vtime_ns", 0)}
 
     def shrink(self, case):
+        if case.get("kind") == "threads":
+            pol = case["policy"]
+            if pol.get("mode") != "script":
+                sc = run_threads(case).get("_script")
+                if sc:
+                    yield dict(case, policy=sc)
+            else:
+                sw = pol["switches"]
+                if len(sw) > 2:
+                    yield dict(case, policy=dict(pol, switches=sw[: len(sw) // 2]))
+                    yield dict(case, policy=dict(pol, switches=sw[len(sw) // 2 :]))
+                for k in range(min(len(sw), 40)):
+                    yield dict(case, policy=dict(pol, switches=sw[:k] + sw[k + 1 :]))
+            return
         ops = case["ops"]
         for i in range(len(ops)):
             if len(ops) > 1:
@@ -273,6 +347,8 @@ class C11(common.Check):
                 yield dict(case, dc=dict(case["dc"], **{k: "d.test"}))
 
     def sample_repr(self, case, res):
+        if case.get("kind") == "threads":
+            return case
         rk = case["root_keys"][0]
         return {"root_key": rk[:3], "domain": case["dc"]["domain"], "forest": case["dc"]["forest"],
                 "ops": [(o["op"], o.get("sid"), o.get("rk"), (o.get("blob") or {}).get("pos")) for o in case["ops"]]}
